@@ -124,12 +124,14 @@ example : dataStage [1, 2, 3, 4, 5, 6, 7, 8, 9, 10] 255 8 = [[1, 2, 3, 4, 5, 6, 
 
 /-! ## Block-ROM handler -/
 
-/-- **block_packet_exact** (partial: *assuming* `romOk`, i.e. `rom_lookup_correct` for this
-collection — the pointer hops over `Rom.layout coll` reach every present descriptor and refuse every
-absent one; the assumption is *evaluated* by the Lean driver on the ROM of every generated
-collection in every run, see PARTIAL).
+/-- **block_packet_exact** (partial: *assuming* `rom_lookup_correct` for the requested wValue, in
+the form `lookupOk (Rom.layout coll) coll ty idx`: the two pointer hops over the generated ROM reach
+an aligned entry word carrying the length and the bytes of the descriptor if it is present, and are
+refused if it is absent.  The assumption is *evaluated* for all 65536 wValues (`romOk`) by the
+compiled Lean driver on the ROM of every collection generated in every run, see PARTIAL).
 
-Full statement (not proved): the same without `hrom`, for every `wellFormed` collection.
+Full statement (not proved): the same without `hlk`, for every `wellFormed` collection, i.e.
+`rom_lookup_correct : wellFormed coll → romOk (Rom.layout coll) coll = true`.
 
 From any idle state, for every `tx.ready` pattern `rs`, a request at an in-order offset
 `p ≤ min wLength |d|` is answered, after at most four quiet cycles, with the abstract transmitter's
@@ -137,7 +139,7 @@ trace of `specResponse`: the chunk `d[p .. p+mps) ∩ [0, wLength)`, or a one-cy
 the data, or — descriptor absent — a one-cycle STALL and never `valid`. -/
 theorem block_packet_exact_partial (coll : Collection) (mps : Nat) (s0 : Block.State)
     (ty idx l p : Nat) (rs : List Bool)
-    (hrom : romOk (Rom.layout coll) coll = true)
+    (hlk : lookupOk (Rom.layout coll) coll ty idx = true)
     (hm : mps = 8 ∨ mps = 16 ∨ mps = 32 ∨ mps = 64)
     (hpw : 2 ≤ (Rom.layout coll).maxLen)
     (hty : ty < 256) (hidx : idx < 256) (hl : l < 65536)
@@ -158,7 +160,7 @@ theorem block_packet_exact_partial (coll : Collection) (mps : Nat) (s0 : Block.S
   cases hf : find? coll ty idx with
   | some d =>
     have hp' := hp d.bytes (by rw [hf]; rfl)
-    obtain ⟨w, hpres⟩ := Block.present_of_romOk (blockOf coll mps) coll ty idx d hrom hty hidx hf
+    obtain ⟨w, hpres⟩ := Block.present_of_lookupOk (blockOf coll mps) coll ty idx d hlk hf
     simp only [Option.map_some, specResponse]
     by_cases hlt : p < min l d.bytes.length
     · refine ⟨4, by omega, ?_⟩
@@ -168,7 +170,7 @@ theorem block_packet_exact_partial (coll : Collection) (mps : Nat) (s0 : Block.S
     · rw [if_neg hlt]
       exact Block.block_zlp (blockOf coll mps) s0 ty idx l p w d.bytes hty hidx hpres h0 hmps.2 hl hp' hlt rs
   | none =>
-    have hok := romOk_lookupOk _ _ hrom ty idx hty hidx
+    have hok := hlk
     unfold lookupOk at hok
     rw [hf] at hok
     have hnone : (blockOf coll mps).img.lookup ty idx = none := by
@@ -303,14 +305,14 @@ theorem respTrace_stall_no_valid (lat : Nat) (rs : List Bool) :
 /-- **stall_without_data_when_absent**, block handler (under the same ROM assumption). -/
 theorem stall_without_data_when_absent_block_partial (coll : Collection) (mps : Nat) (s0 : Block.State)
     (ty idx l p : Nat) (rs : List Bool)
-    (hrom : romOk (Rom.layout coll) coll = true)
+    (hlk : lookupOk (Rom.layout coll) coll ty idx = true)
     (hm : mps = 8 ∨ mps = 16 ∨ mps = 32 ∨ mps = 64) (hpw : 2 ≤ (Rom.layout coll).maxLen)
     (hty : ty < 256) (hidx : idx < 256) (hl : l < 65536) (h0 : s0.fsm = .idle)
     (habs : descrBytes coll ty idx = none) :
     (∃ lat, lat ≤ 4 ∧ Block.run (blockOf coll mps) s0 (Block.reqInputs (ty * 256 + idx) l p rs)
         = respTrace lat .stall rs)
     ∧ ∀ b ∈ Block.run (blockOf coll mps) s0 (Block.reqInputs (ty * 256 + idx) l p rs), b.valid = false := by
-  obtain ⟨lat, hlat, h⟩ := block_packet_exact_partial coll mps s0 ty idx l p rs hrom hm hpw hty hidx hl h0
+  obtain ⟨lat, hlat, h⟩ := block_packet_exact_partial coll mps s0 ty idx l p rs hlk hm hpw hty hidx hl h0
     (by intro d hd; rw [habs] at hd; simp at hd)
   rw [habs] at h
   simp only [specResponse] at h
@@ -343,5 +345,34 @@ theorem stall_without_data_when_absent_dist (coll : Collection) (mps : Nat) (s0 
       have := List.find?_eq_none.mp hf d' hd'
       exact key_ne_of_not_match d' ty idx hidx (hwf d' hd') (by simpa using this)
   exact ⟨hq, by rw [hq]; exact respTrace_stall_no_valid 0 rs⟩
+
+/-! ## Non-vacuity: a concrete collection with a sparse string index (0xFE) -/
+
+/-- device (18 bytes), configuration (16 bytes = 2 packets of 8), language string, string 0xFE (8 bytes). -/
+def sample : Collection :=
+  [⟨1, 0, [18, 1, 0, 2, 0, 0, 0, 64, 9, 18, 1, 0, 0, 0, 1, 2, 0, 1]⟩,
+   ⟨3, 0, [4, 3, 9, 4]⟩,
+   ⟨3, 0xFE, [8, 3, 65, 0, 66, 0, 67, 0]⟩,
+   ⟨2, 0, [9, 2, 16, 0, 1, 1, 0, 128, 50, 7, 5, 129, 2, 64, 0, 0]⟩]
+
+-- the ROM assumption of `block_packet_exact_partial` holds for present and absent wValues
+set_option maxRecDepth 100000 in
+example : lookupOk (Rom.layout sample) sample 3 0xFE = true := by decide +kernel
+set_option maxRecDepth 100000 in
+example : lookupOk (Rom.layout sample) sample 3 1 = true ∧ lookupOk (Rom.layout sample) sample 9 0 = true := by
+  decide +kernel
+-- the 8-byte string read with wLength 255 at mps 8: one full packet, then (start_position 8) a ZLP
+set_option maxRecDepth 100000 in
+example : Block.run (blockOf sample 8) Block.init
+      (Block.reqInputs (3 * 256 + 0xFE) 255 8 [true, true, true, true, true, false, true])
+    = respTrace 4 .zlp [true, true, true, true, true, false, true] := by decide +kernel
+set_option maxRecDepth 100000 in
+example : Dist.run (distOf sample 8) (Dist.init (distOf sample 8))
+      (Dist.reqInputs (3 * 256 + 0xFE) 255 8 [true, true, true, true])
+    = respTrace 1 .zlp [true, true, true, true] := by decide +kernel
+set_option maxRecDepth 100000 in
+example : Dist.run (distOf sample 8) (Dist.init (distOf sample 8))
+      (Dist.reqInputs (3 * 256 + 0) 2 0 [true, false, true, true, false, true, true])
+    = respTrace 2 (.data [4, 3]) [true, false, true, true, false, true, true] := by decide +kernel
 
 end LunaVerif.Desc
